@@ -125,6 +125,14 @@ def make_task(spec):
             o = datatype_factory(spec['dt'], spec['value'], spec['v'], spec['level'])
             return [type(o).__name__, o.to_er7(R.full(R.DEFAULT_EC))]
         return f
+    if k == 'grouptext':
+        def f():
+            # a message with delimiters of its own; a group of it assigned as text written with those delimiters
+            m = core.Message(spec['m'], version=spec['v'], validation_level=2, encoding_chars=dict(spec['ec']))
+            m.msh.msh_7 = '20200101'
+            setattr(m, spec['g'], spec['text'])
+            return [m.to_er7(), [c.name for c in getattr(m, spec['g'])[0].children]]
+        return f
     if k == 'load':
         return lambda: sorted(hl7apy.load_library(spec['v']).BASE_DATATYPES)
     raise ValueError(k)
@@ -136,8 +144,24 @@ def corpus(seed, n=40):
     for i in range(n):
         v = rnd.choice(T.VERSIONS)
         level = rnd.choice([1, 2, 2])
-        k = rnd.choice(['parse', 'parse', 'segment', 'build', 'standalone', 'encode', 'factory', 'factory', 'factory', 'load'])
-        if k == 'parse':
+        k = rnd.choice(['parse', 'parse', 'segment', 'build', 'standalone', 'encode', 'factory', 'factory', 'factory', 'load', 'grouptext'])
+        if k == 'grouptext':
+            cand = []
+            for m in ('ADT_A01', 'ORU_R01', 'OML_O33', 'ADT_A08'):
+                if m in T.lib(v).MESSAGES:
+                    for gname, r, card, kd in T.struct_children(T.message_ref(v, m)):
+                        segs = [c for c in T.struct_children(r) if c[3] == 'SEG'] if kd == 'GRP' else []
+                        if segs and segs[0][0] in T.segments(v):
+                            cand.append((m, gname, segs[0][0]))
+            if not cand:
+                out.append({'t': 'load', 'v': v})
+                continue
+            m, g, sname = rnd.choice(cand)
+            ec = rnd.choice([{'FIELD': '!', 'COMPONENT': '$', 'SUBCOMPONENT': '%', 'REPETITION': '*', 'ESCAPE': '@'}, dict(R.DEFAULT_EC)])
+            if T.vkey(v) >= [2, 7]:
+                ec = dict(ec, TRUNCATION='#' if ec['FIELD'] == '|' else '+')
+            out.append({'t': 'grouptext', 'v': v, 'm': m, 'g': g, 'ec': ec, 'text': R.enc_segment(sname, {1: '1', 2: 'a%d' % i}, R.full(ec))})
+        elif k == 'parse':
             out.append({'t': 'parse', 'text': _msg_text(v, 'ADT_A01', i), 'level': 2, 'fg': rnd.random() < 0.7, 'v': v})
         elif k == 'segment':
             s = rnd.choice([x for x in T.segments(v) if x != 'MSH'])
@@ -328,12 +352,22 @@ def run_shard(shard, acc):
         heavy_ = [t for t in tasks if t['t'] not in ('factory', 'encode', 'segment', 'load')]
         plan_ = [('light', rnd.choice(light)) for _ in range(shard['light_pairs'])] + \
                 [('heavy', rnd.choice(heavy_)) for _ in range(shard['pairs'])]
+        # one pair per shard: A writes with delimiters of its own (a group given as text), B relies on the process-wide defaults
+        own = [t for t in tasks if t['t'] == 'grouptext' and t['ec']['FIELD'] != '|' and T.vkey(t['v']) < [2, 7]]
+        dflt = [t for t in tasks if t['t'] in ('build', 'segment') and T.vkey(t['v']) < [2, 7]]
+        forced = {}
+        if own and dflt:
+            a0 = rnd.choice(own)
+            plan_.append(('heavy', a0))
+            forced[id(a0)] = rnd.choice(dflt)
         for weight, a in plan_:
             # B: another version family (the base datatype sets differ between <2.5, 2.5-2.6 and >=2.7), and one time in
             # three a task that builds many structures
             others = [t for t in tasks if t is not a and family(t.get('v')) != family(a.get('v'))] or tasks
             heavy = [t for t in others if t['t'] in ('standalone', 'parse')]
             b = rnd.choice(heavy) if (heavy and rnd.random() < 0.4) else rnd.choice(others)
+            if id(a) in forced and a is plan_[-1][1]:
+                b = forced[id(a)]
             sched.outcome(make_task(a))        # warm up: imports and first-use code are not part of the schedule space
             pts, _ = sched.trace_points(make_task(a), select_all)
             occ = collections.Counter(pts)
